@@ -71,6 +71,18 @@ def main(argv=None):
         shutil.rmtree(tmpd, ignore_errors=True)
 
 
+def run_native(plan, env):
+    """Call the real function on the counter-model's arguments (rac/native.py, the repo's interpreter). Never raises."""
+    try:
+        p = subprocess.run([vc.PY_B, "-m", "rac.native"], input=json.dumps(plan), capture_output=True, text=True, cwd=vc.ROOT, env=env, timeout=120)
+        last = [ln for ln in p.stdout.splitlines() if ln.startswith("{")]
+        if p.returncode == 0 and last:
+            return json.loads(last[-1])
+        return {"confirmed": False, "error": (p.stderr or p.stdout)[-400:]}
+    except Exception as e:  # noqa
+        return {"confirmed": False, "error": repr(e)}
+
+
 def do_replay(pid, path: Path, env):
     data = json.load(open(path))
     kind = data.get("kind")
@@ -81,6 +93,10 @@ def do_replay(pid, path: Path, env):
         # re-run the named obligation(s) only
         p = subprocess.run([vc.PY_P, "-m", "pyvc.run", pid, "--only", data.get("obligation", ""), "--show"], cwd=vc.ROOT, env=env)
         w = data.get("witness")
+        if w and w.get("kind") == "native":
+            nat = run_native(data.get("native_plan") or {}, env)
+            print(json.dumps(nat)[:1000])
+            return 1 if nat.get("confirmed") else 0
         if w:
             wf = path.with_suffix(".witness.json")
             vc.jdump({"kind": "rac", **w}, wf)
@@ -165,15 +181,24 @@ def run_check(pid, a, seed, env, tmpd, t0):
             "solver": o.get("backend"),
             "solver_output": o.get("solver_output", "sat"),
             "model": o.get("model"),
+            "native_plan": o.get("native_plan"),
         }
         no_input = True
+        what_extra = ""
+        if o.get("native_plan") and not (wit and wit.get("confirmed")):
+            # the counter-model names concrete arguments of a value-level function: call the real function on them
+            nat = run_native(o["native_plan"], env)
+            data["native_replay"] = nat
+            if nat.get("confirmed"):
+                wit = {"confirmed": True, "kind": "native", **nat}
+                what_extra = f"; replayed on the real code: {nat.get('fn')}(*{json.dumps(nat.get('args'))[:200]}) gives {json.dumps(nat.get('observed'))[:160]}, the contract demands {json.dumps(nat.get('expected'))[:160]}"
         if wit and wit.get("confirmed"):
             data["witness"] = wit
             no_input = False
         elif partner is not None:
             data["witness"] = {"driver": partner.get("replay", {}).get("driver"), "case": partner.get("replay", {}).get("case")}
             no_input = False
-        report("vc:" + o["name"], f"obligation {o['name']} refuted ({o.get('clause','')}) at {o.get('fn')}:{o.get('line')}", data, no_input)
+        report("vc:" + o["name"], f"obligation {o['name']} refuted ({o.get('clause','')}) at {o.get('fn')}:{o.get('line')}" + what_extra, data, no_input)
 
     # coverage / level (a bounded run whose only reports are listed known findings still covers an undecided obligation)
     b_unknown = [v for v in b_viol if vc.match_known(pid, v["signature"]) is None]
